@@ -266,7 +266,7 @@ theorem aggL_min (x : Rat) (xs : List Rat) : aggL GridSrc.selAgg x xs = minL x x
 
 theorem tradeoff_cons (cw obj g : Rat) (gs : List Rat) :
     tradeoff cw obj (g :: gs) = some ((1 - cw) * obj + cw * maxL g gs) := by
-  simp [tradeoff, GridSrc.loss, GridSrc.objectiveWeight, aggL_max]
+  simp [tradeoff, GridSrc.loss, aggL_max]
 
 theorem argminFirst_cons (x : Rat) (xs : List Rat) :
     argminFirst (x :: xs) = some ((x :: xs).idxOf (minL x xs)) := by
